@@ -241,7 +241,19 @@ def run_property(prop, tier, seed, mods, jobs=16, only='', rebaseline=False, t0=
             if bb.get('obligations'):
                 n_obl += bb['obligations']
                 n_dis += bb.get('discharged', 0)
+            for he in bb.get('harness_errors', []) or []:
+                # a worker of the sweep died or ran out of time: nothing is known about that deck -- undecided, never
+                # silently dropped and never a violation
+                undecided.append({'contract': bb['name'], 'case': he.get('case', '-'), 'obligation':
+                                  f'{prop}/{bb["name"]}/harness-error', 'why': 'sweep worker failed: ' + str(he.get('detail', ''))[-300:]})
+            if bb.get('kind', '').startswith('bounded') and 'evaluations' in bb and bb['evaluations'] == 0 \
+                    and not bb.get('obligations'):
+                checker_errors.append({'contract': bb['name'], 'case': '-', 'why': 'the bounded check evaluated nothing'})
             for f in bb.get('failures', []):
+                if f.get('label') == 'harness-error':
+                    undecided.append({'contract': bb['name'], 'case': f.get('case', '-'), 'obligation':
+                                      f'{prop}/{bb["name"]}/harness-error', 'why': 'sweep worker failed: ' + str(f.get('detail', ''))[-300:]})
+                    continue
                 entry = {'obligation': f'{prop}/{bb["name"]}/{f.get("label", "bounded")}', 'contract': bb['name'],
                          'case': f.get('case', '-'), 'label': f.get('label', 'bounded'), 'input': f,
                          'how': bb.get('kind', 'bounded') + ' check on the real code',
